@@ -127,11 +127,11 @@ variable (Γ : Nat → FieldTy) (ρ : Nat → Int)
     (`ConstraintImpliesModel(and of guards, [soft])`, built in the soft pass) is true exactly when
     the guard is false or the soft expression holds. -/
 theorem soft_guard (σ : Nat → Nat) (hσ : Agree Γ ρ σ) (g e : Expr)
-    (hg : WF Γ g) (he : WF Γ e) (h1 : cw Γ e 0 = 1) :
+    (hg : WF Γ g) (he : WF Γ e) :
     ∃ b, lowerStmt Γ ρ true (.implies g (.cons (.soft e) .nil)) = some b ∧
       (holds σ b = true ↔ (truthy Γ ρ g = true → truthy Γ ρ e = true)) := by
   have hwf : WFStmt Γ true (.implies g (.cons (.soft e) .nil)) :=
-    ⟨hg, ⟨⟨he, fun _ => h1⟩, trivial, trivial⟩, trivial⟩
+    ⟨hg, ⟨he, trivial, trivial⟩, trivial⟩
   have := (stmt_scope_sound Γ ρ σ hσ true _ hwf).1
   unfold StmtOk at this
   cases hl : lowerStmt Γ ρ true (.implies g (.cons (.soft e) .nil)) with
@@ -143,9 +143,9 @@ theorem soft_guard (σ : Nat → Nat) (hσ : Agree Γ ρ σ) (g e : Expr)
     cases truthy Γ ρ g <;> cases truthy Γ ρ e <;> simp [b2n]
 
 /-- a plain soft constraint in the soft list means its expression -/
-theorem soft_plain (σ : Nat → Nat) (hσ : Agree Γ ρ σ) (e : Expr) (he : WF Γ e) (h1 : cw Γ e 0 = 1) :
-    holds σ (lower Γ ρ e 0) = true ↔ truthy Γ ρ e = true := by
-  have := (stmt_scope_sound Γ ρ σ hσ true (.soft e) ⟨he, fun _ => h1⟩).1
+theorem soft_plain (σ : Nat → Nat) (hσ : Agree Γ ρ σ) (e : Expr) (he : WF Γ e) :
+    holds σ (Expr.toBool (lower Γ ρ e 0)) = true ↔ truthy Γ ρ e = true := by
+  have := (stmt_scope_sound Γ ρ σ hσ true (.soft e) he).1
   simp only [StmtOk, lowerStmt, if_true, mholds] at this
   simp only [holds, this]
   cases truthy Γ ρ e <;> simp [b2n]
